@@ -366,7 +366,8 @@ def extract_adopt(repo, ADOPT, R):
         text = common_rules(R, "\n".join(fl))
         text = R.sub("X4.unsafe_fn", r"\bunsafe fn\b", "fn", text)
         text = R.sub("X4.unsafe_block", r"unsafe \{ (.*?) \}", r"\1", text)
-        text = R.sub("X3.handle_eq", r"ptr::eq\(this, other\)", "this.hid == other.hid", text)
+        text = R.sub("X3.handle_eq", r"\bptr::eq\((\w+), (\w+)\)", r"\1.hid == \2.hid", text)
+        text = R.sub("X3.alloc_eq", r"\b(?:Rc|Self)::ptr_eq\((\w+), (\w+)\)", r"\1.ptr == \2.ptr", text)
         fl = text.split("\n")
         sig, body, close = split_fn(fl)
         body = raii_guards(R, body, fn)
